@@ -212,13 +212,14 @@ func (c *c15) Run(cs core.Case) core.Result {
 		pk := append([]par2rw.Packet{rs.MainPacket()}, critical()[1:]...)
 		pk = append(pk, rs.CreatorPacket("ref"))
 		pk = append(pk, uniPackets...)
+		decoyLayout := func(pk []par2rw.Packet) []par2rw.Packet { return pk }
 		if !useUni && !dupDesc && p.Seed%5 == 3 && len(rs.Files) >= 2 {
-			// Another layout: a main packet that lists only the harmless files
-			// comes first (same set ID field, so it is not the set's real main
-			// packet), then the hostile description, then the real main packet.
+			// Another layout (index and recovery file alike): a main packet that
+			// lists only the harmless files comes first (same set ID field, so
+			// it is not the set's real main packet), then the hostile
+			// description, then the real main packet and everything else.
 			decoy := par2rw.Main{SliceSize: rs.Main.SliceSize}
 			var evilDesc par2rw.Packet
-			var rest []par2rw.Packet
 			for i, rf := range rs.Files {
 				if rf.Name == name {
 					evilDesc = rs.DescPacket(i)
@@ -227,13 +228,17 @@ func (c *c15) Run(cs core.Case) core.Result {
 				decoy.IDs = append(decoy.IDs, rf.ID)
 			}
 			decoy.NRecovery = uint32(len(decoy.IDs))
-			for _, q := range pk {
-				if q.Type == par2rw.TypeFileDesc && string(q.Body) == string(evilDesc.Body) {
-					continue
+			decoyLayout = func(pk []par2rw.Packet) []par2rw.Packet {
+				var rest []par2rw.Packet
+				for _, q := range pk {
+					if q.Type == par2rw.TypeFileDesc && string(q.Body) == string(evilDesc.Body) {
+						continue
+					}
+					rest = append(rest, q)
 				}
-				rest = append(rest, q)
+				return append([]par2rw.Packet{rs.CreatorPacket("ref"), {SetID: rs.SetID, Type: par2rw.TypeMain, Body: decoy.Body()}, evilDesc}, rest...)
 			}
-			pk = append([]par2rw.Packet{rs.CreatorPacket("ref"), {SetID: rs.SetID, Type: par2rw.TypeMain, Body: decoy.Body()}, evilDesc}, rest...)
+			pk = decoyLayout(pk)
 			r.Count("archives_with_decoy_main_packet", 1)
 		}
 		os.WriteFile(idx, par2rw.Serialize(pk), 0644)
@@ -249,7 +254,7 @@ func (c *c15) Run(cs core.Case) core.Result {
 		for e := 0; e < nb; e++ {
 			vp = append(vp, rs.RecvPacket(uint32(e)))
 		}
-		os.WriteFile(filepath.Join(t.arch, "set.vol00+99.par2"), par2rw.Serialize(vp), 0644)
+		os.WriteFile(filepath.Join(t.arch, "set.vol00+99.par2"), par2rw.Serialize(decoyLayout(vp)), 0644)
 	} else {
 		var in []par1rw.InFile
 		// Another carrier: the hostile name sits on an entry that is NOT saved in
